@@ -1133,9 +1133,25 @@ func (vc *VC) modItemArrays(c *Contract, mi *ModItem) []string {
 		return out
 	}
 	var ft types.Type
-	for i := 0; i < stt.NumFields(); i++ {
-		if stt.Field(i).Name() == mi.Path {
-			ft = stt.Field(i).Type()
+	segs := strings.Split(mi.Path, ".")
+	cur := stt
+	for si, seg := range segs {
+		ft = nil
+		for i := 0; i < cur.NumFields(); i++ {
+			if cur.Field(i).Name() == seg {
+				ft = cur.Field(i).Type()
+			}
+		}
+		if ft == nil {
+			break
+		}
+		if si < len(segs)-1 {
+			next, ok := ft.Underlying().(*types.Struct)
+			if !ok {
+				ft = nil
+				break
+			}
+			cur = next
 		}
 	}
 	if ft == nil {
